@@ -180,6 +180,9 @@ impl Prop for C03Prop {
         let case = decode_case(b, tier, Some(GenCfg::classic(tier == Tier::Quick)));
         Some(json!({"source": render_program(&case.prog, Some(Dialect::Classic)), "args": case.args.iter().map(|a| a.show()).collect::<Vec<_>>(), "features": case.feats}))
     }
+    fn sut_crash_is_violation(&self) -> bool {
+        false
+    }
     fn case_timeout(&self) -> (u64, bool) {
         (60, false)
     }
